@@ -65,6 +65,17 @@ def opsBwd (op : String) (ins outs : List String) : Option String :=
     match parseItv x' with
     | some a => pure (verdictB (sampleOk y fv v a) (if Itv.subset fv y then "consistent-kept" else "inconsistent") "consistent-point-removed")
     | none => pure "FAIL impl-bound-not-a-number"
+  | "bwdsub3", [_, _, x1, x2, x3], [x1', x2', x3', _] => do
+    let x1 ← parseItv x1; let x2 ← parseItv x2; let x3 ← parseItv x3
+    match parseItv x1', parseItv x2', parseItv x3' with
+    | some a, some b, some c => pure (verdictB (Itv.subset a x1 && Itv.subset b x2 && Itv.subset c x3) (if a == x1 && b == x2 && c == x3 then "nocontract" else "contract") "not-contracting")
+    | _, _, _ => pure "FAIL impl-bound-not-a-number"
+  | "bwdpt3", [_, y, fv, v1, v2, v3], [x1', x2', x3'] => do
+    let y ← parseItv y; let fv ← parseItv fv; let v1 ← parseExt v1; let v2 ← parseExt v2; let v3 ← parseExt v3
+    match parseItv x1', parseItv x2', parseItv x3' with
+    | some a, some b, some c =>
+      pure (verdictB (sampleOk y fv v1 a && sampleOk y fv v2 b && sampleOk y fv v3 c) (if Itv.subset fv y then "consistent-kept" else "inconsistent") "consistent-point-removed")
+    | _, _, _ => pure "FAIL impl-bound-not-a-number"
   | "bwdpt2", [_, y, fv, v1, v2], [x1', x2'] => do
     let y ← parseItv y; let fv ← parseItv fv; let v1 ← parseExt v1; let v2 ← parseExt v2
     match parseItv x1', parseItv x2' with
